@@ -76,7 +76,9 @@ PROPS = {
         'level': 'proof',
         'verus': [{'group': 'shard_core'}, _sg('shard_strings'), _sg('shard_lists'), _sg('shard_sweeper'), _sg('shard_sets'), _sg('shard_hashes'), _sg('shard_zsets'), {'group': 'shard_flush', 'exclude_units': SHARD_VALUE_UNITS},
                   {'group': 'exec_strings', 'units': ['exec_set']}, {'group': 'exec_keys', 'units': ['exec_ttl', 'exec_renamenx', 'exec_expire']},
-                  {'group': 'srv_strings', 'units': ['handle_ttl', 'handle_expire', 'handle_setex', 'handle_psetex', 'handle_set', 'handle_setnx', 'handle_renamenx']}],
+                  {'group': 'srv_strings', 'units': ['handle_ttl', 'handle_expire', 'handle_setex', 'handle_psetex', 'handle_set', 'handle_setnx', 'handle_renamenx']},
+                  # overwriting commands at handler level: the TTL goes with the old value (GETSET also when the new value equals the old one)
+                  {'group': 'cmd_strings', 'units': ['handle_getset', 'handle_append', 'handle_setrange']}],
         'explanation': 'deadline-index invariant index_ok preserved by every shard operation under contract; lazy expiry of get/exists/set_nx; ttl arithmetic',
     },
     'C03': {
@@ -117,8 +119,8 @@ PROPS = {
     },
     'C08': {
         'level': 'proof',
-        'verus': [{'group': 'shard_core'}, _sg('shard_strings'), _sg('shard_lists'), _sg('shard_sweeper'), _sg('shard_sets'), _sg('shard_hashes'), _sg('shard_zsets'), {'group': 'srv_exec'}, {'group': 'shard_flush', 'exclude_units': SHARD_VALUE_UNITS}],
-        'explanation': 'every shard mutator under contract marks the key it changes and no other (step_ok)',
+        'verus': [{'group': 'shard_core'}, _sg('shard_strings'), _sg('shard_lists'), _sg('shard_sweeper'), _sg('shard_sets'), _sg('shard_hashes'), _sg('shard_zsets'), {'group': 'srv_exec'}, {'group': 'shard_flush', 'exclude_units': SHARD_VALUE_UNITS}, {'group': 'c07_transactions', 'units': ['handle_watch']}],
+        'explanation': 'every shard mutator under contract marks the key it changes and no other (step_ok); handle_watch registers every key argument under its own bytes, in the connection\'s database, with the baseline the engine reports for those bytes',
     },
     'C09': {
         'level': 'proof',
